@@ -134,6 +134,8 @@ def finish_policies(g):
                 n["out_sel"] = preset
         if t in ("machine", "splitter"):
             n["in_sel"] = policy_spec(rng, nin.get(n["id"], 1))
+            if max(nin.get(n["id"], 1), nout.get(n["id"], 1)) >= 2 and rng.random() < 0.08:
+                n["in_sel"] = n["out_sel"] = "ROUND_ROBIN"         # the same stateful policy on both sides of one node
 
 
 def build_topology(g, prop):
@@ -239,13 +241,15 @@ def build_topology(g, prop):
         m["wc"] = rng.choice([2, 2, 3, 4])
         m["pdelay"] = {"form": "const", "vals": [rng.choice([1, 2, 0.5])]} if rng.random() < 0.7 else m["pdelay"]
         m["setup"] = rng.choice([0, 0, 3])
+        if rng.random() < 0.35:
+            m["blocking"] = False
         e = g.edge(s, m, force="buffer")
         e["cap"] = rng.choice([2, 3, 4])
         e["delay"] = 0
         for _ in range(rng.choice([2, 2, 3])):
             k = g.chaos_consumer() if rng.random() < 0.4 else g.sink()
             eo = g.edge(m, k, force="buffer")
-            eo["cap"] = 1
+            eo["cap"] = rng.choice([1, 1, 1, 2, 3])
             eo["delay"] = rng.choice([0, 0, 2, 5])
     elif tmpl == "contended_fanin":
         # items become available on several in-edges in the same instant
